@@ -3,6 +3,7 @@ import CwPlus.Lemmas.Ics20Migrate
 import CwPlus.Lemmas.Ics20Env
 import CwPlus.Lemmas.Ics20TotalSent
 import CwPlus.Lemmas.Ics20Ledger
+import CwPlus.Lemmas.Ics20Honest
 /-!
 # C12 — cw20-ics20: channel balance tracks vouchers exactly; error acks change nothing
 
@@ -874,5 +875,147 @@ forged one is refused by the books (nothing outstanding) and the identity holds 
 example : sentOf w0 hist ("channel-0", .cw20 "T1") = 40 ∧ sentOf w0 hist ("channel-0", .native "uatom") = 60 := by decide
 example : (runU (w0, Ghost.init w0) (hist ++ hist.drop 4)).2.failed ("channel-0", .native "uatom") = 60 ∧
     outstanding (run w0 (hist ++ hist.drop 4)).st "channel-0" (.native "uatom") = 0 := by decide
+
+/-! ## Packets in flight, and the honest counterparty of the quantifier
+
+`Lemmas/Ics20Honest.lean`: `inflightSum`, `ackedOf` (Σ of the success acknowledgements processed along
+`runG`), the annotated histories `List HEv` (our transactions interleaved with the counterparty's
+`deliver` events), the counterparty state `CpState` (pending / delivered packets, minted vouchers),
+`honestEv` / `HonestFrom` (what an honest counterparty chain and IBC core do) and the invariant `HInv`. -/
+
+/-- **C12, inflight_accounting** (relates the ghost `inflight` — so far only a filter — to the ledgers;
+clause "minus those whose send *failed or timed out*"): for a contract at a stored version newer than
+0.13.0, on every admissible history (migrations anywhere), per channel and denomination
+`failed + ackedOk + Σ in flight = sent − outstanding₀`, i.e. every failure and every success
+acknowledgement consumed a distinct earlier send, and therefore
+`outstanding + redeemed = outstanding₀ + ackedOk + Σ in flight`: the books are short of the packets in
+flight exactly when more vouchers came back than were confirmed. -/
+theorem inflight_accounting (w : World) (ops : List (Block × Op))
+    (hv : Version.lt MIGRATE_VERSION_3 w.st.version = true) (c : String) (d : Denom) :
+    let wg := runG (w, Ghost.init w) ops
+    wg.2.failed (c, d) + ackedOf (w, Ghost.init w) ops (c, d) + inflightSum wg.2 (c, d) + outstanding w.st c d
+      = wg.2.sent (c, d) ∧
+    outstanding wg.1.st c d + wg.2.redeemed (c, d)
+      = outstanding w.st c d + ackedOf (w, Ghost.init w) ops (c, d) + inflightSum wg.2 (c, d) := by
+  intro wg
+  have hwg : wg = runG (w, Ghost.init w) ops := rfl
+  clear_value wg; subst hwg
+  have h1 := runG_inflight (wg := (w, Ghost.init w)) ops hv (ledgerInv_init w) (c, d)
+  have h2 := (runG_ledger ops (ledgerInv_init w)).1 (c, d)
+  have e1 : (w, Ghost.init w).2.sent (c, d) = outAt w.st.chan (c, d) := rfl
+  have e2 : (w, Ghost.init w).2.failed (c, d) = 0 := rfl
+  have e3 : inflightSum (w, Ghost.init w).2 (c, d) = 0 := rfl
+  rw [e1, e2, e3] at h1
+  rw [outstanding_eq, outstanding_eq]
+  constructor <;> omega
+
+/-- **C12, refund_never_refused (honest counterparty)** — the content of "with an honest counterparty
+chain" in the quantifier.  For a contract at a stored version newer than 0.13.0 (e.g. freshly
+instantiated), on every annotated history that is honest (`HonestFrom`: success acknowledgements only
+for packets the counterparty accepted, error acknowledgements / timeouts only for packets it did not
+accept, vouchers come back only as far as they were minted — possibly before the acknowledgement of the
+minting transfer is relayed; everything else arbitrary: any transfers, governance, migrations, fault
+flags), for every packet `p` still pending on `chan`:
+
+* the world is the plain history of the transactions, and it is an admissible history of `runG`;
+* the channel balance covers the packet: `p.amount ≤ outstanding chan p.denom` — the refund is never
+  refused for lack of channel balance;
+* **exact condition for the refund transaction**: whenever the gas check of the denomination passes
+  (`checkGasLimit … = .ok gas`: native, or a cw20 token that validates and is allow-listed or covered by
+  a default gas limit), both the timeout and the error acknowledgement of `p` are processed — the
+  transaction succeeds and emits the refund sub-message to the original sender for the full amount with
+  that gas limit; and if the gas check fails (a token that is neither allowed nor default-covered, or an
+  address that does not validate) the transaction is aborted as a whole (`refund_refused_iff_gas`). -/
+theorem refund_never_refused (w : World) (hv : Version.lt MIGRATE_VERSION_3 w.st.version = true) (evs : List HEv)
+    (hh : HonestFrom (HState.init w) evs) {chan : String} {p : Packet}
+    (hm : (chan, p) ∈ (runH (HState.init w) evs).c.pending) :
+    (runH (HState.init w) evs).w = run w (opsOf evs) ∧
+    ((runH (HState.init w) evs).w, (runH (HState.init w) evs).g) = runG (w, Ghost.init w) (opsOf evs) ∧
+    p.amount ≤ outstanding (run w (opsOf evs)).st chan p.denom ∧
+    ∀ (blk : Block) (sv tv f : Bool) (gas : Option Nat), checkGasLimit (run w (opsOf evs)).st p.denom tv = .ok gas →
+      (∃ w' o, (run w (opsOf evs)).exec blk (.timeout chan (some p) sv tv f) = .ok (w', o) ∧
+        o.sub = some ⟨p.sender, p.amount, p.denom, gas, ACK_FAILURE_ID⟩) ∧
+      (∃ w' o, (run w (opsOf evs)).exec blk (.ack chan (some p) (some false) sv tv f) = .ok (w', o) ∧
+        o.sub = some ⟨p.sender, p.amount, p.denom, gas, ACK_FAILURE_ID⟩) := by
+  have hI := runH_inv evs (hinv_init w hv) hh
+  have hw : (runH (HState.init w) evs).w = run w (opsOf evs) := runH_w (HState.init w) evs
+  obtain ⟨cs, hg, hle⟩ := hinv_pending_covered hI hm
+  rw [hw] at hg
+  refine ⟨hw, runH_eq_runG evs (hinv_init w hv) hh, by simp [outstanding, hg, hle], ?_⟩
+  intro blk sv tv f gas hgas
+  have hf := onPacketFailure_ok_of_entry hg hle hgas
+  exact ⟨exec_timeout_ok hf blk sv f, exec_ackFail_ok hf blk sv f⟩
+
+/-- **C12, the refund of a pending packet is refused iff the gas check refuses its denomination**
+(honest counterparty, stored version newer than 0.13.0): the only way the timeout / error-acknowledgement
+transaction of a pending packet can abort is `check_gas_limit` — a cw20 token that is neither on the
+allow list nor covered by a default gas limit (or whose address does not validate). -/
+theorem refund_refused_iff_gas (w : World) (hv : Version.lt MIGRATE_VERSION_3 w.st.version = true) (evs : List HEv)
+    (hh : HonestFrom (HState.init w) evs) {chan : String} {p : Packet}
+    (hm : (chan, p) ∈ (runH (HState.init w) evs).c.pending) (blk : Block) (sv tv f : Bool) :
+    ((∃ e, (run w (opsOf evs)).exec blk (.timeout chan (some p) sv tv f) = .error e) ↔
+      ∃ e, checkGasLimit (run w (opsOf evs)).st p.denom tv = .error e) ∧
+    ((∃ e, (run w (opsOf evs)).exec blk (.ack chan (some p) (some false) sv tv f) = .error e) ↔
+      ∃ e, checkGasLimit (run w (opsOf evs)).st p.denom tv = .error e) := by
+  obtain ⟨_, _, _, hok⟩ := refund_never_refused w hv evs hh hm
+  cases hg : checkGasLimit (run w (opsOf evs)).st p.denom tv with
+  | ok gas =>
+    obtain ⟨⟨w1, o1, h1, _⟩, ⟨w2, o2, h2, _⟩⟩ := hok blk sv tv f gas hg
+    constructor <;> constructor
+    · rintro ⟨e, he⟩; rw [h1] at he; cases he
+    · rintro ⟨e, he⟩; cases he
+    · rintro ⟨e, he⟩; rw [h2] at he; cases he
+    · rintro ⟨e, he⟩; cases he
+  | error e =>
+    obtain ⟨h1, h2⟩ := refund_aborts_of_gas_error (chan := chan) hg blk sv f
+    exact ⟨⟨fun _ => ⟨e, rfl⟩, fun _ => h1⟩, ⟨fun _ => ⟨e, rfl⟩, fun _ => h2⟩⟩
+
+/-- **C12, honest histories from a fresh instantiation**: `refund_never_refused` with its version
+hypothesis discharged by `instantiate`. -/
+theorem refund_never_refused_fresh {m : InstMsg} {s : State} (hi : instantiate m = .ok s) (w : World) (evs : List HEv)
+    (hh : HonestFrom (HState.init { w with st := s }) evs) {chan : String} {p : Packet}
+    (hm : (chan, p) ∈ (runH (HState.init { w with st := s }) evs).c.pending) :
+    p.amount ≤ outstanding (run { w with st := s } (opsOf evs)).st chan p.denom :=
+  (refund_never_refused { w with st := s } (instantiate_postV3S hi) evs hh hm).2.2.1
+
+/-! ### Non-vacuity: an honest annotated history, and what a dishonest counterparty breaks -/
+
+def pT1 : Packet := ⟨40, .cw20 "T1", "remote-bob", "alice", some "memo"⟩
+def pU : Packet := ⟨60, .native "uatom", "remote-bob", "alice", some "memo"⟩
+
+/-- alice sends 40 T1; the counterparty accepts the packet and mints; 15 vouchers come back *before* the
+success acknowledgement is relayed; the acknowledgement arrives; alice sends 60 uatom (still pending). -/
+def hev : List HEv :=
+  [.op b0 (.sendCw20 "alice" "T1" 40 (some tm)),
+   .deliver "channel-0" pT1,
+   .op b0 (.recv (pkt (.cw20 "T1") 15) true true false),
+   .op b0 (.ack "channel-0" (some pT1) (some true) true true false),
+   .op b0 (.transferNative "alice" [("uatom", 60)] tm)]
+
+example : HonestFrom (HState.init w0) hev := by
+  refine ⟨trivial, ?_, ?_, ?_, trivial, trivial⟩
+  · show ("channel-0", pT1) ∈ (_ : List (String × Packet)); decide
+  · intro amt port ch d h1 h2
+    cases h1; cases h2; decide
+  · show ("channel-0", pT1) ∈ (_ : List (String × Packet)); decide
+
+example : ("channel-0", pU) ∈ (runH (HState.init w0) hev).c.pending ∧
+    outstanding (runH (HState.init w0) hev).w.st "channel-0" (.native "uatom") = 60 ∧
+    outstanding (runH (HState.init w0) hev).w.st "channel-0" (.cw20 "T1") = 25 ∧
+    (runH (HState.init w0) hev).c.minted ("channel-0", .cw20 "T1") = 40 ∧
+    ackedOf (w0, Ghost.init w0) (opsOf hev) ("channel-0", .cw20 "T1") = 40 ∧
+    inflightSum (runG (w0, Ghost.init w0) (opsOf hev)).2 ("channel-0", .native "uatom") = 60 := by decide
+
+/-- Honesty is needed: if the counterparty lets 40 vouchers "come back" for a packet it never accepted
+(`redeemed + 40 > minted = 0`), the contract pays them out, and the timeout of the still pending packet is
+then refused for lack of channel balance — the transaction aborts although T1 is allow-listed. -/
+example : ¬ HonestFrom (HState.init w0) [.op b0 (.sendCw20 "alice" "T1" 40 (some tm)), .op b0 (.recv (pkt (.cw20 "T1") 40) true true false)] := by
+  rintro ⟨_, h, _⟩
+  have := h 40 _ _ _ rfl rfl
+  revert this; decide
+example : ((run w0 [(b0, .sendCw20 "alice" "T1" 40 (some tm)), (b0, .recv (pkt (.cw20 "T1") 40) true true false)]).exec b0
+      (.timeout "channel-0" (some pT1) true true false)).isOk = false ∧
+    (checkGasLimit (run w0 [(b0, .sendCw20 "alice" "T1" 40 (some tm)), (b0, .recv (pkt (.cw20 "T1") 40) true true false)]).st
+      (.cw20 "T1") true).isOk = true := by decide
 
 end CwPlus.Props.C12
